@@ -502,7 +502,7 @@ pub fn trait_model(rep: &mut Report, ix: &Index, roles: &[Role], item_kind: &str
     let mut memo: std::collections::HashMap<String, Option<XDec>> = Default::default();
     for p in &run.paths {
         // the zero-field shape is a separate path (accumulator empty): it carries no per-field decision
-        if p.cond.iter().any(|(a, b)| *b && a.starts_with("all-empty(") && !a.contains("WhereClauseBuilder")) { continue; }
+        if shape_path(&p.cond) { continue; }
         let mut mask = 0u32;
         let mut value = 0u32;
         for (a, b) in &p.cond {
